@@ -9,10 +9,11 @@ Cons == { AnyC(t) : t \in {"string", "number", "bool", "list", "map", "object", 
         \cup { [k |-> "kw", t |-> ""], [k |-> "listref", t |-> "string"], [k |-> "setany", t |-> "string"] }
         \* a tuple of references whose elements expect different types; the cursor is in the second element (expected type t)
         \cup { [k |-> "tup2", t |-> t] : t \in {"list", "number"} }
-Typed == {"", "l", "loc.", "loc.s", "loc.o", "loc.o.", "loc.l", "s", "self.", "self.p", "b", "b.", "b.part[0].", "c.", "self.t", "u", "mk", "t", "f", "k", "zz", "loc.x", "d.", "d.t", "d.two."}
+Typed == {"", "l", "loc.", "loc.s", "loc.o", "loc.o.", "loc.l", "s", "self.", "self.p", "b", "b.", "b.part[0].", "c.", "self.t", "u", "mk", "t", "f", "k", "zz", "loc.x", "d.", "d.t", "d.two.", "c", "count."}
 Places == { [level |-> 0, self |-> FALSE, inloc |-> FALSE], [level |-> 0, self |-> FALSE, inloc |-> TRUE],
             [level |-> 1, self |-> TRUE, inloc |-> FALSE], [level |-> 1, self |-> FALSE, inloc |-> FALSE],
-            [level |-> 2, self |-> TRUE, inloc |-> FALSE], [level |-> 3, self |-> FALSE, inloc |-> FALSE] }
+            [level |-> 2, self |-> TRUE, inloc |-> FALSE], [level |-> 3, self |-> FALSE, inloc |-> FALSE],
+            [level |-> 4, self |-> FALSE, inloc |-> FALSE] }
 \* (inside block loc the attribute being edited has loc's own any-expression constraint of dynamic type)
 \* inside an expression form only under an any-expression constraint (the other constraints do not admit the form), with some text typed
 \* (a typed text ending in "." is only meaningful in the plain form: elsewhere the parser returns no expression of that form)
